@@ -78,7 +78,7 @@ def main():
         checks = (a.checks or a.pid).split(",")
         out["checks"] = {}
         for cid in checks:
-            cenv = dict(os.environ, VERIF_REPO=str(wt), VERIF_NO_SHRINK="1", VERIF_JOBS=a.jobs)
+            cenv = dict(os.environ, VERIF_REPO=str(wt), VERIF_NO_SHRINK="1", VERIF_JOBS=a.jobs, VERIF_EVIDENCE_DIR=f"/tmp/sv-ev-{name}")
             c = run([str(VERIF / "check"), cid, "--tier", a.tier], env=cenv, cwd=str(VERIF))
             buckets = [l.strip() for l in c.stdout.splitlines() if l.strip().startswith("bucket=")]
             out["checks"][cid] = {"rc": c.returncode, "buckets": [b[:300] for b in buckets[:6]],
